@@ -190,7 +190,11 @@ func (v *Voucher) OwnerPublicKey() (crypto.PublicKey, error) {
 	if len(v.Entries) == 0 {
 		return v.Header.Val.ManufacturerKey.Public()
 	}
-	return v.Entries[len(v.Entries)-1].Payload.Val.PublicKey.Public()
+	last := v.Entries[len(v.Entries)-1]
+	if last.Payload == nil {
+		return nil, fmt.Errorf("last voucher entry has no payload")
+	}
+	return last.Payload.Val.PublicKey.Public()
 }
 
 // VerifyHeader checks that the OVHeader was not modified by comparing the HMAC
@@ -294,6 +298,11 @@ func (v *Voucher) VerifyEntries() error {
 	// Voucher may have never been extended since manufacturing
 	if len(v.Entries) == 0 {
 		return nil
+	}
+	for i, entry := range v.Entries {
+		if entry.Payload == nil {
+			return fmt.Errorf("voucher entry %d has no payload", i)
+		}
 	}
 
 	// Header info is the concatenation of GUID and DeviceInfo
